@@ -6,7 +6,7 @@ from concurrent.futures import ThreadPoolExecutor
 
 import vlib
 
-INVS = "TypeOK OwnAnswer MutexExcl QueryInSession OutShape RelLegal".split()
+INVS = "TypeOK OwnAnswer MutexExcl QueryInSession OutShape RelLegal ErrOnlyWhenDead ErrSuffix OpaqueOutcome".split()
 
 
 def _rows(r, what):
@@ -34,8 +34,7 @@ def _tlc_all(chk, jobs, timeout):
         if expect:
             if r.ok or expect not in r.out:
                 raise vlib.MachineryError("%s: TLC was expected to report '%s' (%s)" % (cfg, expect, r))
-            chk.extra.setdefault("model_of_the_code_as_read", {})[cfg] = \
-                "Mutex=FALSE, two concurrent callers: OwnAnswer violated, the replies are swapped (F-C25)"
+            chk.extra.setdefault("model_of_the_code_as_read", {})[cfg] = EXPECTED_VIOLATIONS.get(cfg, expect)
             continue
         vlib.tlc_must_pass(r, "ReqResp/" + cfg)
         if kw.get("simulate"):
@@ -45,6 +44,33 @@ def _tlc_all(chk, jobs, timeout):
                 r.distinct = r.distinct or r.generated
         chk.add_tlc(cfg, r)
         out[cfg] = r
+    return out
+
+
+EXPECTED_VIOLATIONS = {
+    "ReqRespNoMutex.cfg": "Mutex=FALSE, two concurrent callers: OwnAnswer violated, the replies are swapped (F-C25)",
+    "ReqRespDupOpaque.cfg": "model of a handler that sends an opaque reply to the result channel twice: OwnAnswer violated, "
+                            "the next call receives the duplicate (what the replays look for after every opaque reply)",
+}
+
+
+def _merge_forms(rows):
+    """Sequential behaviours of the reply-form configuration come once per kind of client (onop = raw | fail) for
+    the programs that contain an opaque reply: one row per program, out = the client that hands the reply over raw,
+    alt = the client that fails the connection. Both expectations are the model's."""
+    by = {}
+    for r in rows:
+        by.setdefault(json.dumps(r["prog"]), {})[r["onop"]] = r
+    out = []
+    for k, d in by.items():
+        if "raw" not in d:
+            raise vlib.MachineryError("ReqRespForm: no behaviour of the raw-hand-over client for %s" % k)
+        r = d["raw"]
+        if "fail" in d:
+            if d["fail"]["h"] != r["h"]:
+                raise vlib.MachineryError("ReqRespForm: histories of the two kinds of client differ for %s" % k)
+            r["alt"] = d["fail"]["out"]
+        out.append(r)
     return out
 
 
@@ -87,7 +113,17 @@ def run(chk, replay=None):
                 "invocations, in the server callbacks, and in the caller at the engine's Enqd hook, i.e. after the request is "
                 "queued and before the caller waits for its reply), followed by barrier-released stress rounds of 32 "
                 "goroutines on each client; every returned "
-                "value must carry its own request's tag and, in sequential histories, the model server's session values. "
+"value must carry its own request's tag and, in sequential histories, the model server's session values. "
+                "Reply form: requests whose reply arrives in a form the client's typed decoder refuses (op qx: a RejectTx reason "
+                "no ledger error type parses - registered CBOR tags around content of the wrong type -, an LSQ result of another "
+                "type) are part of the programs; the model admits a client that hands such a reply over raw and one that fails "
+                "the connection (every later call returns an error and no reply), checks OwnAnswer, ErrOnlyWhenDead, ErrSuffix "
+                "and OpaqueOutcome for both (sequential programs of 3 calls, 2 x 2 exhaustively, 3 x 2 sampled; thorough: 4 calls over "
+                "the whole alphabet, 2 x 2 across acquire/release and 3 x 2 exhaustively), and shows that a "
+                "handler sending the opaque reply twice violates OwnAnswer; the replay observes which kind the real client is and "
+                "applies the model's expectation for that kind: a call may return an error only where the model's connection has "
+                "failed, every value must still be the call's own (the plain reject reasons come as text, generic structure and "
+                "typed era mismatch, by tag). "
                 "A case is one (protocol, programs, history) replay; it is non-trivial when it makes at least one call")
     chk.assumptions = [
         "the server side is the library's own server with tagging callbacks; its LSQ re-acquire path sends no Acquired by "
@@ -98,6 +134,10 @@ def run(chk, replay=None):
         "concurrent behaviours are a seeded random sample of the model's behaviours (TLC -simulate); the invariants are "
         "checked exhaustively on the smaller exhaustive configurations",
         "state timeouts (C14) are configured out of the way (10 min)",
+        "opaque replies are produced through the library's own servers (CborRejectReason for tx-submission, a query result of "
+        "another type for LSQ); tx-monitor and peer-sharing replies cannot be made opaque that way and rows with qx are not "
+        "replayed on them; what a client does with an opaque reply (hand it over raw, fail the connection) is not prescribed "
+        "by the property: both are accepted, the kind is observed per replay (connection down or not)",
     ]
     drv = vlib.go_build("c25")
     if replay:
@@ -117,23 +157,35 @@ def run(chk, replay=None):
     quick = chk.tier == "quick"
     sim_n = 250 if quick else 3000
     seq_cfg = "ReqRespSeq.cfg" if quick else "ReqRespSeqThorough.cfg"
+    form_cfg = "ReqRespForm.cfg" if quick else "ReqRespFormThorough.cfg"
+    formconc_cfg = "ReqRespFormConc.cfg" if quick else "ReqRespFormConcThorough.cfg"
+    simform_n = 70 if quick else 1000
     jobs = [
         ("ReqResp.cfg", {}, None),
         ("ReqRespSession.cfg", {}, None),
         (seq_cfg, {}, None),
         ("ReqRespSim.cfg", {"simulate": "num=%d" % sim_n, "extra": ["-depth", "150", "-seed", str(chk.seed)]}, None),
         ("ReqRespNoMutex.cfg", {}, "Invariant OwnAnswer is violated"),
+        (form_cfg, {}, None),
+        (formconc_cfg, {} if quick else {"workers": 4}, None),
+        ("ReqRespSimForm.cfg", {"simulate": "num=%d" % simform_n, "extra": ["-depth", "150", "-seed", str(chk.seed)]}, None),
+        ("ReqRespDupOpaque.cfg", {}, "Invariant OwnAnswer is violated"),
     ]
     if not quick:
         jobs.append(("ReqRespSessionThorough.cfg", {"workers": 4}, None))
+        jobs.append(("ReqRespFormConc3.cfg", {"workers": 4}, None))
     res = _tlc_all(chk, jobs, 420 if quick else 900)
     seq_rows = _rows(res[seq_cfg], seq_cfg)
     sim_rows = _rows(res["ReqRespSim.cfg"], "ReqRespSim.cfg")
-    rows = seq_rows + sim_rows
+    form_rows = [r for r in _merge_forms(_rows(res[form_cfg], form_cfg)) if any("qx" in p for p in r["prog"])]
+    simform_rows = _rows(res["ReqRespSimForm.cfg"], "ReqRespSimForm.cfg")
+    rows = seq_rows + sim_rows + form_rows + simform_rows
     for i, r in enumerate(rows):
         r["idx"] = i
     chk.extra["behaviours_sequential"] = len(seq_rows)
     chk.extra["behaviours_concurrent_sampled"] = len(sim_rows)
+    chk.extra["behaviours_reply_form_sequential"] = len(form_rows)
+    chk.extra["behaviours_reply_form_concurrent_sampled"] = len(simform_rows)
     chk.extra["behaviours_concurrent_fully_sequential"] = sum(1 for r in sim_rows if r["seq"])
     vlib.run_driver_sharded(chk, drv, [], rows, shards=4, timeout=500)
     if not quick:
